@@ -44,6 +44,9 @@ structure ClassOpts where
   inline : Bool := false
   /-- names of fields whose Field object is immutable (`ImmutableArray`, `ImmutableMap`, …) -/
   immFields : List String := []
+  /-- field names in definition order (`get_all_fields_by_name()`): the order deserialization
+      processes them in; the `fields` list itself is in constructor-signature order -/
+  defOrder : List String := []
 deriving Repr, Inhabited
 
 inductive FieldDecl where
